@@ -13,6 +13,9 @@ def run(tier):
     common.dfuzz(rep, binary, PROP, cases, 3000 if tier != "thorough" else 60000)
     # (growth) the same Incomplete / Needed contract over a whole run: the streaming consumer of Stream.tla on DTLS records
     common.stream_runs(rep, binary, PROP, ["parse_dtls_plaintext_record"], 3, thorough=(tier == "thorough"))
+    # (growth) seeded, structurally random DTLS messages / records / datagrams: every header field from its whole domain
+    common.mc_replay(rep, binary, PROP, "MC_C10_Rand", keyf=lambda c: "rand:%s:%s" % (c["note"]["t"], c["id"]), run="rand", nchunks=8,
+                     env={"VERIF_SEED": str(vlib.seed())})
     common.len_sweep(rep, binary, PROP)
     common.huge_buffers(rep, binary, PROP, fns=("parse_dtls_plaintext_record", "parse_dtls_record_header", "parse_dtls_message_handshake"))
     return rep.finish("model_checking",
